@@ -46,6 +46,11 @@ fn gen_grid(rng: &mut Rng, out: &mut UnitResult) -> MSheet {
         }
         if rng.chance(1, 6) {
             c.formula = Some(format!("of:=[.A{}]+{}", 1 + k % 9, k));
+            if rng.chance(1, 3) {
+                // a formula cell without a cached result (legal; the value is then absent)
+                c.val = Val::Blank;
+                c.xf = None;
+            }
         }
         c
     };
@@ -115,6 +120,9 @@ fn gen_grid(rng: &mut Rng, out: &mut UnitResult) -> MSheet {
         let row = r0 + h + *rng.pick(&[1023u32, 1024, 1025, 4096, 20_000]);
         sh.cells.insert((row, col), mk(rng, &mut serial, (row, col)));
         out.feat("far_row>=1023");
+    }
+    if sh.cells.values().any(|c| c.formula.is_some() && c.val == Val::Blank) {
+        out.feat("formula_without_cached_value");
     }
     if r0 > 1 {
         out.feat("leading_empty_rows>1");
@@ -223,7 +231,7 @@ impl Prop for C04 {
         tier.pick(16, 240)
     }
     fn mandatory(&self, _t: Tier) -> Vec<String> {
-        ["cuts:Maximal", "cuts:Explicit", "cuts:Random", "trailing:Absent", "trailing:Explicit", "trailing:Huge", "interior_blank_rows", "interior_blank_row_first_col>0", "duplicated_row", "duplicated_cells", "leading_empty_rows>1", "first_col>0", "far_column>=1023", "far_row>=1023", "repeated_value_cell", "repeated_empty_cell", "repeated_value_row", "repeated_empty_row", "covered_cell", "wrapper:table:table-header-rows", "wrapper:table:table-row-group", "wrapper:table:table-rows", "str:text:p", "str:string-value", "str:multi_paragraph"]
+        ["cuts:Maximal", "cuts:Explicit", "cuts:Random", "trailing:Absent", "trailing:Explicit", "trailing:Huge", "interior_blank_rows", "interior_blank_row_first_col>0", "duplicated_row", "duplicated_cells", "leading_empty_rows>1", "first_col>0", "far_column>=1023", "far_row>=1023", "formula_without_cached_value", "repeated_value_cell", "repeated_empty_cell", "repeated_value_row", "repeated_empty_row", "covered_cell", "wrapper:table:table-header-rows", "wrapper:table:table-row-group", "wrapper:table:table-rows", "str:text:p", "str:string-value", "str:string-value:rendering_differs", "str:string-value:no_rendering", "str:multi_paragraph"]
             .iter().map(|s| s.to_string()).collect()
     }
     fn run_unit(&self, ctx: &Ctx, unit: u64, out: &mut UnitResult) {
